@@ -12,6 +12,7 @@ mod c16;
 mod pool;
 mod poolgen;
 mod votor;
+mod c01;
 mod c09;
 mod c20;
 mod c19;
@@ -167,6 +168,7 @@ fn real_main() {
                 "C11" => c11::gen_c11(seed, tier),
                 "C19" => c19::gen_c19(seed, tier),
                 "C20" => c20::gen_c20(seed, tier),
+                "C01" => c01::gen_c01(seed, tier),
                 "C15" => c15::generate(seed, tier),
                 "C17" => c17::gen_c17(seed, tier),
                 "C16" => c16::gen_c16(seed, tier),
